@@ -367,6 +367,50 @@ func (c *Ctx) rulePathVarTypes() {
 	} else {
 		r.Bad("C04-PATHVAR-TYPES", "AddProperty", fmt.Sprintf("child added unconditionally=%v, all types copied unconditionally=%v: a path variable can refer to a type the synthetic schema does not know, which only fails when the catalog is serialised", addChild, loopTop), c.pos(f.Decl.Pos()))
 	}
+	// the callers: the node and the type list handed to AddProperty belong to the same piece (field selections of one
+	// value); a type list that is a separate variable can be emptied or belong to another piece
+	for _, g := range c.libFns() {
+		ast.Inspect(g.Decl.Body, func(nd ast.Node) bool {
+			call, ok := nd.(*ast.CallExpr)
+			if !ok || len(call.Args) != 3 {
+				return true
+			}
+			cal := callee(g.Pkg, call)
+			if cal == nil || cal.Name() != "AddProperty" || g.Obj == f.Obj {
+				return true
+			}
+			if _, isMap := g.Pkg.TypesInfo.TypeOf(call.Args[2]).Underlying().(*types.Map); !isMap {
+				return true
+			}
+			if idx := paramIndexOf(g, call.Args[2]); idx >= 0 && !paramAssigned(g, call.Args[2]) {
+				return true // a wrapper that hands its own parameters on: judged at its callers
+			}
+			key := "call site | " + g.Name()
+			baseOf := func(e ast.Expr) string {
+				e = ast.Unparen(e)
+				for {
+					if ce, ok := e.(*ast.CallExpr); ok { // x.node.Copy()
+						if sel, ok := ast.Unparen(ce.Fun).(*ast.SelectorExpr); ok && len(ce.Args) == 0 {
+							e = ast.Unparen(sel.X)
+							continue
+						}
+					}
+					break
+				}
+				if sel, ok := e.(*ast.SelectorExpr); ok && fieldSel(g.Pkg, sel) != nil {
+					return accessPath(g.Pkg, sel.X)
+				}
+				return ""
+			}
+			nb, tb := baseOf(call.Args[1]), baseOf(call.Args[2])
+			if nb != "" && nb == tb {
+				r.Ok("C04-PATHVAR-TYPES", key, "node and type list are fields of the same piece", c.pos(call.Pos()))
+			} else {
+				r.Bad("C04-PATHVAR-TYPES", key, "the type list handed to AddProperty is not the one of the piece whose node is added ("+exprString(call.Args[2])+"): a property can refer to a type the synthetic schema does not know, which only fails when the catalog is serialised", c.pos(call.Pos()))
+			}
+			return true
+		})
+	}
 }
 
 var _ = token.NoPos
